@@ -16,7 +16,7 @@ STD = ('expired', 'submitted', 'submit-failed', 'started', 'succeeded', 'failed'
 # custom output names (all accepted by TaskOutputValidator)
 PLAIN = ['x', 'y', 'z', 'w', 'a1', 'out_2', 'B']
 HYPHEN = ['x-y', 'a-b-c', 'file-1']
-COLLIDE = [('x-y', 'x_y'), ('a-b', 'a_b'), ('-x', '_x')]
+COLLIDE = [('x-y', 'x_y'), ('a-b', 'a_b'), ('-x', '_x'), ('submit_failed',)]
 NONIDENT = ['1x', '1', 'in', 'not', 'None', 'True', 'is', 'lambda', '42', '0', 'if']
 CLASH = ['expr']
 
@@ -149,7 +149,8 @@ BAD_TEXTS = [
     ('succeeded or (expired and nosuch)', OR(A('succeeded'), AND(A('expired'), A('nosuch')))),
     ('succeeded or finished', OR(A('succeeded'), A('finished'))), ('succeed or failed', OR(A('succeed'), A('failed'))),
     ('succeeded or submit-failed', None), ('succeeded or x-y', None), ('succeeded, x', None), ('succeeded if x else failed', None),
-    ('x == succeeded', None), ('succeeded or 01', None), ('None or succeeded', OR({'c': 'None'}, A('succeeded'))),
+    ('x == succeeded', None), ('not succeeded or x', OR({'not': A('succeeded')}, A('x'))),
+    ('x and not (succeeded and failed)', AND(A('x'), {'not': AND(A('succeeded'), A('failed'))})), ('succeeded or 01', None), ('None or succeeded', OR({'c': 'None'}, A('succeeded'))),
 ]
 
 
@@ -465,10 +466,10 @@ class C11(Prop):
             for cu in (customs if not quick else customs[:4]):
                 yield mk(std, cu)
         # (2) random definitions incl. special names
-        for _ in range(700 if quick else 12000):
-            yield mk(random_std(rng), random_custom(rng, 4 if quick else 5))
+        for _ in range(600 if quick else 12000):
+            yield mk(random_std(rng), random_custom(rng, 3 if quick else 5))
         # (3) user expressions
-        for _ in range(700 if quick else 12000):
+        for _ in range(600 if quick else 12000):
             yield self.user_case(rng)
         # (4) invalid texts and TaskOutputs(text)
         for text, tree in BAD_TEXTS:
@@ -544,9 +545,11 @@ class C11(Prop):
         cu = [c[0] for c in inp['custom']]
         cvs = [compvar(c) for c in cu]
         tags = [inp['mode']]
-        if obs.get('cfg') == 'reject':
-            tags.append('rejected')
         usr = inp['user']
+        if obs.get('cfg') == 'reject':
+            if usr and usr['text']:
+                return None      # rejected user expression: nothing of C11 is evaluated (trivial)
+            tags.append('rejected')
         if usr and usr['text']:
             t = usr['tree']
             if not tree_positive(t):
